@@ -17,6 +17,13 @@ import VerifModel.Model.TextInput
 
   The civil calendar (`TextInput.Cal`) is shared with the model: "the unixtime of 00 UTC of
   the day YYYYMMDD" is defined by the proleptic Gregorian day count (trusted base).
+
+  Missing values.  A text file has no way to say "missing" other than a token that is not an
+  ordinary number: a word that is not a number at all (NA, ".", …), `nan`, and the two numeric
+  encodings the NetCDF format uses as well: -999 and anything above 1e30 (the usual fill values,
+  e.g. 9.96921e+36; `inf` / `infinity` included).  Consequently -999, a number above 1e30 and
+  +inf are NOT values a table can hold (`numOK`, `valOK`): such a value cannot be written to a
+  text file and read back — every token that could spell it spells "missing".  -inf is a value.
 -/
 namespace VerifModel.Spec
 open VerifModel TextInput
@@ -187,7 +194,41 @@ def colOK : Col → Prop
 /-- the name under which a column is found (offset is an alias of leadtime) -/
 def colKey (c : Col) : List Char := normName (colWord c).name
 
-def isMissTok (t : Tok) : Prop := cleanTok t = .nan
+/-- the largest number a text (or NetCDF) file can carry: the double `1e30`; anything above it is a
+missing-value encoding -/
+def maxNum : Rat := 1000000000000000019884624838656
+
+/-- a number that can be written to a text file and read back: none of the missing-value
+encodings (-999, above 1e30) -/
+def numOK (q : Rat) : Prop := q ≠ -999 ∧ q ≤ maxNum
+
+instance (q : Rat) : Decidable (numOK q) := by unfold numOK; infer_instance
+
+/-- a data value a table can hold: missing, -inf, or a number that is not a missing-value encoding
+(+inf is above 1e30: missing) -/
+def valOK : XR → Prop
+  | .fin q => numOK q
+  | .pinf => False
+  | .ninf => True
+  | .nan => True
+
+/-- a location coordinate (lat / lon / elevation) a table can hold -/
+def metaOK : Option Rat → Prop
+  | some q => numOK q
+  | none => True
+
+instance (o : Option Rat) : Decidable (metaOK o) := by cases o <;> (unfold metaOK; infer_instance)
+
+/-- the tokens that stand for a missing value: a word that is not a number, `nan`, -999, a number
+above 1e30, `inf` -/
+def isMissTok : Tok → Prop
+  | .bad _ => True
+  | .nan => True
+  | .inf => True
+  | .ninf => False
+  | .num q => q = -999 ∨ maxNum < q
+
+instance (t : Tok) : Decidable (isMissTok t) := by cases t <;> (unfold isMissTok; infer_instance)
 
 def cmtOK : Cmt → Prop
   | .other ws => ∃ w rest, ws = w :: rest ∧ w.name ∉ metaKeys
@@ -197,13 +238,13 @@ def cmtOK : Cmt → Prop
 def timeOK (L : Layout) (c : Case) : Prop :=
   if Col.date ∈ L.cols then
     ∃ ut : Int, Cal.unixOfDate (L.dateOf c) = some ut ∧ 0 < L.dateOf c ∧
-      (if Col.hour ∈ L.cols then (ut : Rat) + L.hourOf c * 3600 = c.time ∧ L.hourOf c ≠ -999
+      (if Col.hour ∈ L.cols then (ut : Rat) + L.hourOf c * 3600 = c.time ∧ numOK (L.hourOf c)
        else (ut : Rat) = c.time)
-  else if Col.unixtime ∈ L.cols then c.time ≠ -999
+  else if Col.unixtime ∈ L.cols then numOK c.time
   else c.time = 0
 
 def leadOK (L : Layout) (c : Case) : Prop :=
-  if Col.leadtime ∈ L.cols ∨ Col.offset ∈ L.cols then c.lead ≠ -999 else c.lead = 0
+  if Col.leadtime ∈ L.cols ∨ Col.offset ∈ L.cols then numOK c.lead else c.lead = 0
 
 def hasIdCol (L : Layout) : Bool := decide (Col.location ∈ L.cols) || decide (Col.id ∈ L.cols)
 
@@ -234,18 +275,21 @@ structure WF (T : Table) (L : Layout) : Prop where
   one_elev : ¬ (Col.altitude ∈ L.cols ∧ Col.elev ∈ L.cols)
   time_ok : ∀ r ∈ T.rows, timeOK L r.1
   lead_ok : ∀ r ∈ T.rows, leadOK L r.1
-  /-- -999 is the missing-value code and cannot be a coordinate or a metadata value -/
-  id_ok : ∀ r ∈ T.rows, r.1.loc ≠ -999
-  meta_ok : ∀ r ∈ T.rows, (T.station r.1.loc).lat ≠ some (-999) ∧
-      (T.station r.1.loc).lon ≠ some (-999) ∧ (T.station r.1.loc).elev ≠ some (-999)
+  /-- -999 and anything above 1e30 are the missing-value encodings and cannot be a coordinate or a
+  metadata value (`numOK`; the same for the time / lead-time cells in `timeOK` / `leadOK`) -/
+  id_ok : ∀ r ∈ T.rows, numOK r.1.loc
+  meta_ok : ∀ r ∈ T.rows, metaOK (T.station r.1.loc).lat ∧
+      metaOK (T.station r.1.loc).lon ∧ metaOK (T.station r.1.loc).elev
   /-- an unknown lat / lon / elevation is written with a missing-value token (any of them, possibly
   a different one on every row) -/
   missMeta_ok : ∀ c k, isMissTok (L.missMeta c k)
   /-- without an id column a location is identified by the metadata columns present -/
   loc_inj : hasIdCol L = false → ∀ r ∈ T.rows, ∀ r' ∈ T.rows,
       locOf T L r.1.loc = locOf T L r'.1.loc → r.1.loc = r'.1.loc
-  /-- -999 is not a data value either; missing cells are written with a missing token -/
-  val_ok : ∀ r ∈ T.rows, ∀ f, r.2 f ≠ .fin (-999)
+  /-- nor a data value: a data value is not -999, not above 1e30 and not +inf (`valOK`) — such a
+  value cannot be written to a text file and read back, each of its spellings reads "missing" (as in
+  a NetCDF file); missing cells are written with a missing token (any of them: `isMissTok`) -/
+  val_ok : ∀ r ∈ T.rows, ∀ f, valOK (r.2 f)
   miss_ok : ∀ c f, isMissTok (L.miss c f)
   cmt_ok : ∀ b ∈ L.blocks, ∀ c ∈ b, cmtOK c
   /-- a metadata item the table has is written somewhere -/
